@@ -44,7 +44,7 @@ fn xo_err<E>(e: CrossoverGeneError<E>) -> Value {
 
 /// One real crossover call in one of the four input forms; genes are integers (vector forms)
 /// or 0/1 (bitstring forms).
-pub fn crossover(op: &str, form: &str, p1: &Value, p2: &Value, rng: &mut SmallRng) -> Value {
+pub fn crossover(op: &str, form: &str, p1: &Value, p2: &Value, rng: &mut dyn rand::RngCore) -> Value {
     let r = guarded(|| match (op, form) {
         ("two_point", "vec_arr") => TwoPointXo
             .recombine([ints(p1), ints(p2)], rng)
@@ -193,6 +193,14 @@ pub fn trace(args: &[String]) -> i32 {
     for run in first..first + runs {
         let mut rng = run_rng(seed, 0xC10, run);
         let kind = rng.random_range(0..10);
+        // the stream the operator under test draws from: usually a seeded generator, sometimes one
+        // of the two degenerate streams
+        let stream = match rng.random_range(0..8) { 0 => "zeros", 1 => "ones", _ => "seeded" };
+        let mut op_rng: Box<dyn rand::RngCore> = match stream {
+            "zeros" => Box::new(crate::util::ConstRng(0)),
+            "ones" => Box::new(crate::util::ConstRng(u64::MAX)),
+            _ => Box::new(run_rng(seed, 0xC1F, run)),
+        };
         let ev = match kind {
             0..=3 => {
                 let op = if rng.random() { "two_point" } else { "uniform" };
@@ -211,8 +219,8 @@ pub fn trace(args: &[String]) -> i32 {
                     ((1..=n as i64).collect(), (1..=m as i64).map(|k| 100 + k).collect())
                 };
                 let (p1, p2) = (json!(p1), json!(p2));
-                let res = crossover(op, form, &p1, &p2, &mut rng);
-                json!({"ev": "xo", "run": run, "op": op, "form": form, "p1": p1, "p2": p2, "res": res})
+                let res = crossover(op, form, &p1, &p2, &mut *op_rng);
+                json!({"ev": "xo", "run": run, "stream": stream, "op": op, "form": form, "p1": p1, "p2": p2, "res": res})
             }
             4 => {
                 let a: Vec<i64> = (0..rng.random_range(0..=6)).map(|_| rng.random_range(0..2)).collect();
@@ -236,19 +244,19 @@ pub fn trace(args: &[String]) -> i32 {
                     match (bitsform, ool) {
                         (false, false) => {
                             let v: Vec<bool> = g.iter().map(|x| *x != 0).collect();
-                            let Ok(c) = WithRate::new(rate).mutate(v, &mut rng);
+                            let Ok(c) = WithRate::new(rate).mutate(v, &mut *op_rng);
                             c.iter().map(|x| i64::from(*x)).collect()
                         }
                         (true, false) => {
-                            let Ok(c) = WithRate::new(rate).mutate(bits(&json!(g)), &mut rng);
+                            let Ok(c) = WithRate::new(rate).mutate(bits(&json!(g)), &mut *op_rng);
                             bits_json(&c)
                         }
                         (false, true) => {
                             let v: Vec<bool> = g.iter().map(|x| *x != 0).collect();
-                            let c = WithOneOverLength.mutate(v, &mut rng).expect("size converts");
+                            let c = WithOneOverLength.mutate(v, &mut *op_rng).expect("size converts");
                             c.iter().map(|x| i64::from(*x)).collect()
                         }
-                        (true, true) => bits_json(&WithOneOverLength.mutate(bits(&json!(g)), &mut rng).expect("size converts")),
+                        (true, true) => bits_json(&WithOneOverLength.mutate(bits(&json!(g)), &mut *op_rng).expect("size converts")),
                     }
                 });
                 let res = match res {
@@ -256,7 +264,7 @@ pub fn trace(args: &[String]) -> i32 {
                     Err(m) => json!({"k": "panic", "msg": m}),
                 };
                 let (num, den) = if ool { (1, n.max(1) as u32) } else { (num, den) };
-                json!({"ev": "mut", "run": run, "op": if ool { "ool" } else { "flip" },
+                json!({"ev": "mut", "run": run, "stream": stream, "op": if ool { "ool" } else { "flip" },
                        "form": if bitsform { "bits" } else { "vec" }, "num": num, "den": den, "g": g, "res": res})
             }
             _ => {
@@ -275,7 +283,7 @@ pub fn trace(args: &[String]) -> i32 {
                             "with_empty" => Umad::new_with_empty_rate(add, emp, del, NewGene),
                             _ => Umad::new_without_empty(add, del, NewGene),
                         };
-                        let Ok(c) = u.mutate(plushy_parent(n), &mut rng);
+                        let Ok(c) = u.mutate(plushy_parent(n), &mut *op_rng);
                         plushy_json(&c)
                     } else {
                         let u = match ctor {
@@ -284,7 +292,7 @@ pub fn trace(args: &[String]) -> i32 {
                             _ => Umad::new_without_empty(add, del, NewInt),
                         };
                         let parent: Vector<i64> = (1..=n as i64).collect();
-                        let Ok(c) = u.mutate(parent, &mut rng);
+                        let Ok(c) = u.mutate(parent, &mut *op_rng);
                         c.genes
                     }
                 });
@@ -297,7 +305,7 @@ pub fn trace(args: &[String]) -> i32 {
                     "with_empty" => ("rate", en, ed),
                     _ => ("none", 0, 1),
                 };
-                json!({"ev": "mut", "run": run, "op": "umad", "form": if plushy { "plushy" } else { "vector" },
+                json!({"ev": "mut", "run": run, "stream": stream, "op": "umad", "form": if plushy { "plushy" } else { "vector" },
                        "ctor": ctor, "addN": an, "addD": ad, "delN": dn, "delD": dd, "ek": ek, "eN": e_n, "eD": e_d,
                        "g": (1..=n as i64).collect::<Vec<i64>>(), "res": res})
             }
